@@ -89,6 +89,9 @@ func c02WriteFileWide(path string, file, lines, wide int) int64 {
 			b.WriteByte('\n')
 		}
 	}
+	if c02TailZ(file, lines) {
+		b.WriteByte('z') // a last line of one byte, without newline
+	}
 	os.WriteFile(path, b.Bytes(), 0644)
 	return int64(b.Len())
 }
@@ -188,7 +191,12 @@ func runPacedPid(cmd vlib.Cmd, p pacing, pipeSize int, onPid func(int)) (*vlib.R
 type c02Obs struct {
 	perFile   map[int][]int
 	malformed []string
+	tailZ     int // one-byte last lines seen
 }
+
+// c02TailZ: files that end in a one-byte line "z" without a newline (after
+// their terminated records).
+func c02TailZ(file, lines int) bool { return lines > 0 && (file+lines)%6 == 1 }
 
 var c02RecRe = regexp.MustCompile(`^F([0-9]{3})#([0-9]{6})#((?:hit)?x*)#([0-9a-f]{8})`)
 
@@ -208,6 +216,17 @@ func c02Parse(out []byte, unterminated map[int]int) c02Obs {
 		if rest[0] == '\n' {
 			rest = rest[1:] // (an empty line cannot be produced by the generated files)
 			bad([]byte("<empty line>"))
+			continue
+		}
+		if rest[0] == 'z' && (len(rest) == 1 || rest[1] == 'F' || rest[1] == 'z' || rest[1] == '\n') {
+			// the one-byte unterminated last line of a file; what follows it is
+			// printed right behind it
+			o.tailZ++
+			rest = rest[1:]
+			if len(rest) > 0 && rest[0] == '\n' {
+				bad([]byte("newline after the unterminated one-byte line"))
+				rest = rest[1:]
+			}
 			continue
 		}
 		m := c02RecRe.FindSubmatchIndex(rest)
@@ -566,6 +585,12 @@ func c02Run(r *vlib.Run, i int, c *c02Case, cfgs map[int]string, free chan *c02S
 		}
 	}
 	obs := c02Parse(out, unterminated)
+	wantZ := 0
+	for _, f := range c.Files {
+		if c02TailZ(f.ID, f.Lines) && c.Mode == "cat" {
+			wantZ++
+		}
+	}
 	if c.Rotate != "" {
 		// the server's own message about the state of the file at the end of
 		// the read (text empty when the server logs errors only) is not content
@@ -593,6 +618,7 @@ func c02Run(r *vlib.Run, i int, c *c02Case, cfgs map[int]string, free chan *c02S
 		}
 		return map[string]interface{}{"mode": c.Mode, "file_lines": sizes, "glob": c.Glob, "ssh": c.SSH, "limit": c.Limit, "pacing": c.Pace,
 			"pipe_size": c.PipeSize, "exit": res.Exit, "hung": res.Hung, "short_files": missing, "malformed_lines": obs.malformed,
+			"one_byte_last_lines_seen": obs.tailZ, "one_byte_last_lines_expected": wantZ,
 			"hook_events": clipStrings(sig, 60), "stderr": vlib.Trunc(string(res.Stderr), 1500), "stdout_bytes": len(out), "points": c.Points}
 	}
 	// compare
@@ -608,6 +634,15 @@ func c02Run(r *vlib.Run, i int, c *c02Case, cfgs map[int]string, free chan *c02S
 			suffixLossOnly = false
 		}
 		lost += len(want) - len(got)
+	}
+	// the one-byte last lines: each is the very end of its file
+	if obs.tailZ != wantZ {
+		exact = false
+		if obs.tailZ > wantZ {
+			suffixLossOnly = false
+		} else {
+			lost += wantZ - obs.tailZ
+		}
 	}
 	for id := range obs.perFile {
 		if _, ok := exp[id]; !ok {
